@@ -143,7 +143,9 @@ static void common_post(Info *info, int64_t alpha, int64_t beta, int64_t res, in
   if (stop_at_entry) PROP(n_children == 0 && n_do == 0 && n_gen <= 1, "C06 a stop that is already set when the node is entered is honoured before any move is searched");
   if (!STOPFLAG) {
     PROP(info->INFO_pv_list_length >= 0 && info->INFO_pv_list_length <= 9, "C05 PV length is the child's length plus one at most");
-    PROP(info->INFO_pv_list_length == 0 || in_list(info->INFO_pv_list.f0[0]), "C05 the first PV move of a node is one of its generated (legal) moves, whatever the transposition table holds");
+    /* the parent adopts this node's PV exactly when the node did not fail high (its value, negated, beats the parent's alpha);
+       at the root the PV is the answer itself */
+    if (res < beta || ce_isroot) PROP(info->INFO_pv_list_length == 0 || in_list(info->INFO_pv_list.f0[0]), "C05 the first PV move of a node is one of its generated (legal) moves, whatever the transposition table holds");
     /* induction step for mate scores: with children, evaluation and (honest) table scores inside [-VALUE_MATE, VALUE_MATE] so is the node's value */
     if (!tt_found || ((int64_t)TT_ENTRY.f3.f0 >= -VALUE_MATE && (int64_t)TT_ENTRY.f3.f0 <= VALUE_MATE))
       PROP(res >= -VALUE_MATE && res <= VALUE_MATE, "C08 a node whose children and evaluation stay in range returns a value in [-VALUE_MATE, VALUE_MATE], never +-infinity");
@@ -153,7 +155,9 @@ static void common_post(Info *info, int64_t alpha, int64_t beta, int64_t res, in
        children searched after a move of the node, unless it is a bound of the incoming window, the table's score, the node's own
        mate (no legal moves) or the value of the quiescence search the node was handed to.  (The evaluation stays outside the mate range.) */
     if (res >= MATE_BOUND || res <= -MATE_BOUND) {
-      int ok = (res == alpha || res == beta) || (tt_found && res == (int64_t)TT_ENTRY.f3.f0) || (nlist == 0 && res == -VALUE_MATE) || (handover && res == handover_value);
+      int64_t tts = (int64_t)TT_ENTRY.f3.f0;
+      int ok = (res == alpha || res == beta) || (tt_found && (tts >= MATE_BOUND || tts <= -MATE_BOUND) && (tts > 0) == (res > 0)) ||     /* a stored mate score (possibly ply-adjusted by the table code) */
+               (nlist == 0 && res == -VALUE_MATE) || (handover && res == handover_value);
       for (int i = 0; i < NCV; i++) if (i < ncv) { int64_t r = -CV[i]; if ((r >= MATE_BOUND || r <= -MATE_BOUND) && res == (r > 0 ? r - 1 : r + 1)) ok = 1; }
       PROP(ncv > NCV || ok, "C08 a mate score returned by a node is exactly one ply further away than the mate score of one of its children");
     }
